@@ -9,6 +9,7 @@ import (
 	"database/sql"
 	"database/sql/driver"
 	"fmt"
+	"strconv"
 	"strings"
 	"sync"
 
@@ -76,6 +77,43 @@ type table struct {
 	uniques []uniqueSet
 	fks     []*foreignKey // outgoing
 	refBy   []*foreignKey // incoming
+	// colCheckNames[i][j] is the generated name of the j-th CHECK of column i
+	colCheckNames [][]string
+	usedNames     map[string]bool
+}
+
+// chooseName mimics PostgreSQL's ChooseConstraintName: table_cols_label,
+// with a numeric suffix when the name is taken.
+func (tb *table) chooseName(cols []string, label string) string {
+	base := tb.name
+	if len(cols) > 0 {
+		base += "_" + strings.Join(cols, "_")
+	}
+	if tb.usedNames == nil {
+		tb.usedNames = map[string]bool{}
+	}
+	name := base + "_" + label
+	for i := 1; tb.usedNames[name]; i++ {
+		name = base + "_" + label + strconv.Itoa(i)
+	}
+	tb.usedNames[name] = true
+	return name
+}
+
+func (tb *table) claimName(explicit string) string {
+	if tb.usedNames == nil {
+		tb.usedNames = map[string]bool{}
+	}
+	tb.usedNames[explicit] = true
+	return explicit
+}
+
+func (tb *table) names(cols []int) []string {
+	out := make([]string, len(cols))
+	for i, c := range cols {
+		out[i] = tb.cols[c].name
+	}
+	return out
 }
 
 // Store is the database.
@@ -138,8 +176,13 @@ func New(script *pgmodel.Script) *Store {
 			}
 			if col.primary {
 				col.notNull = true
-				tb.uniques = append(tb.uniques, uniqueSet{name: key + "_pkey", cols: []int{idx}, primary: true})
+				tb.uniques = append(tb.uniques, uniqueSet{name: tb.chooseName(nil, "pkey"), cols: []int{idx}, primary: true})
 			}
+			var checkNames []string
+			for range col.checks {
+				checkNames = append(checkNames, tb.chooseName([]string{ck}, "check"))
+			}
+			tb.colCheckNames = append(tb.colCheckNames, checkNames)
 		}
 		st.tables[key] = tb
 		st.order = append(st.order, key)
@@ -182,9 +225,26 @@ func (st *Store) applyAlter(al *pgmodel.Alter) {
 	}
 	switch al.Kind {
 	case "add_check":
-		name := al.ConstraintName
+		name := pgmodel.ResolveIdent(al.ConstraintName)
 		if name == "" {
-			name = tb.name + "_check"
+			// "tab_col_check" when the expression mentions exactly one column
+			var mentioned []string
+			pgmodel.WalkExpr(al.Check, func(e pgmodel.Expr) {
+				if c, ok := e.(*pgmodel.ColumnRef); ok {
+					for _, m := range mentioned {
+						if m == c.Lower {
+							return
+						}
+					}
+					mentioned = append(mentioned, c.Lower)
+				}
+			})
+			if len(mentioned) != 1 {
+				mentioned = nil
+			}
+			name = tb.chooseName(mentioned, "check")
+		} else {
+			tb.claimName(name)
 		}
 		tb.checks = append(tb.checks, namedCheck{name: name, expr: al.Check})
 	case "add_unique", "add_primary_key":
@@ -193,14 +253,8 @@ func (st *Store) applyAlter(al *pgmodel.Alter) {
 			st.warnf("ignored (unknown column): %s", oneLine(al.Raw))
 			return
 		}
-		u := uniqueSet{name: al.ConstraintName, cols: cols, primary: al.Kind == "add_primary_key"}
-		if u.name == "" {
-			suffix := "_key"
-			if u.primary {
-				suffix = "_pkey"
-			}
-			u.name = tb.name + suffix
-		}
+		u := uniqueSet{name: pgmodel.ResolveIdent(al.ConstraintName), cols: cols, primary: al.Kind == "add_primary_key"}
+		nameChosen := u.name != ""
 		if u.primary {
 			for _, o := range tb.uniques {
 				if o.primary {
@@ -211,6 +265,14 @@ func (st *Store) applyAlter(al *pgmodel.Alter) {
 			for _, c := range cols {
 				tb.cols[c].notNull = true
 			}
+		}
+		switch {
+		case nameChosen:
+			tb.claimName(u.name)
+		case u.primary:
+			u.name = tb.chooseName(nil, "pkey")
+		default:
+			u.name = tb.chooseName(tb.names(cols), "key")
 		}
 		tb.uniques = append(tb.uniques, u)
 	case "set_default":
@@ -269,9 +331,11 @@ func (st *Store) applyAlter(al *pgmodel.Alter) {
 				return
 			}
 		}
-		fk := &foreignKey{name: al.ConstraintName, from: tb, cols: cols, to: ref, refCols: refCols, onDelete: al.OnDelete, onUpdate: al.OnUpdate}
+		fk := &foreignKey{name: pgmodel.ResolveIdent(al.ConstraintName), from: tb, cols: cols, to: ref, refCols: refCols, onDelete: al.OnDelete, onUpdate: al.OnUpdate}
 		if fk.name == "" {
-			fk.name = tb.name + "_" + tb.cols[cols[0]].name + "_fkey"
+			fk.name = tb.chooseName(tb.names(cols), "fkey")
+		} else {
+			tb.claimName(fk.name)
 		}
 		tb.fks = append(tb.fks, fk)
 		ref.refBy = append(ref.refBy, fk)
